@@ -38,10 +38,13 @@ namespace gtry {
 	}
 
 	Bit gt(const SInt& lhs, const SInt& rhs) {
-		return (rhs - lhs).sign();
+		// subtract in one more bit than the wider operand: the difference of two w-bit two's-complement numbers needs w+1 bits
+		const BitWidth w = std::max(lhs.width(), rhs.width()) + 1_b;
+		return (sext(rhs, w) - sext(lhs, w)).sign();
 	}
 	Bit lt(const SInt& lhs, const SInt& rhs) {
-		return (lhs - rhs).sign();
+		const BitWidth w = std::max(lhs.width(), rhs.width()) + 1_b;
+		return (sext(lhs, w) - sext(rhs, w)).sign();
 	}
 	Bit geq(const SInt& lhs, const SInt& rhs) {
 		return !lt(lhs, rhs);
